@@ -22,17 +22,17 @@ def with_timeout(f, default, t=1.0):
 
     def on(sig, frm):
         raise _T()
-    old = signal.signal(signal.SIGALRM, on)
+    old = signal.signal(signal.SIGPROF, on)
     try:
         try:
-            signal.setitimer(signal.ITIMER_REAL, t)
+            signal.setitimer(signal.ITIMER_PROF, t)
             return f()
         finally:
-            signal.setitimer(signal.ITIMER_REAL, 0)
+            signal.setitimer(signal.ITIMER_PROF, 0)
     except _T:
         return default
     finally:
-        signal.signal(signal.SIGALRM, old)
+        signal.signal(signal.SIGPROF, old)
 
 
 def outcome(f):
